@@ -147,6 +147,8 @@ def t_importance_k_csmc(E):
             return Stacked(n + 1, lambda i: ite(I, i < n, a.at(i), b), tag="stack_to_first_dim")
         raise Exception(f"stack_to_first_dim model: first operand {type(a).__name__}")
     E.I.overrides[SMC + ":stack_to_first_dim"] = stack_to_first_dim
+    E.ctx.notes.append("ASSUMED of stack_to_first_dim (inference/smc.py; modelled, not executed: jnp.reshape / concatenate / squeeze): "
+                       "it appends its second operand to the stacked first operand")
     stacked_operands = []
     for with_q in (True, False):
         tag = "proposal" if with_q else "prior"
@@ -259,6 +261,8 @@ def t_reciprocal(E):
             return Stacked(n + 1, lambda i: ite(I, i < n, a.at(i), b), tag="stack_to_first_dim")
         raise Exception(f"stack_to_first_dim model: first operand {type(a).__name__}")
     E.I.overrides[SMC + ":stack_to_first_dim"] = stack_to_first_dim
+    E.ctx.notes.append("ASSUMED of stack_to_first_dim (inference/smc.py; modelled, not executed: jnp.reshape / concatenate / squeeze): "
+                       "it appends its second operand to the stacked first operand")
     lse_args = []
     real_lse = E.I.ext["jax.scipy.special.logsumexp"]
 
